@@ -211,6 +211,15 @@ func init() {
 			rq = c.Choose(n + 1)
 			ps = c.Choose(n + 1)
 		}
+		if c08Variant == 4 {
+			// on the re-used parser every inner level's subcommands are optional: a line may stop above what the earlier line selected
+			om = 1
+			for _, pp := range par {
+				if pp >= 0 {
+					om |= 1 << uint(pp+1)
+				}
+			}
+		}
 		c08Deviated = am != 0 || om != 0 || cl != 0 || sn || hm != 0
 		key := fmt.Sprintf("s%d/a%d/o%d/c%d/n%v/x%v/r%d/p%d/h%d/v%d", si, am, om, cl, sn, exec, rq, ps, hm, c08Variant)
 		td, ok := cache[key]
@@ -232,7 +241,7 @@ func init() {
 		// 1: PassAfterNonOption is set; 2: the parser has a string option whose separate argument is spelled like a command name
 		// 3: HelpFlag is set and --help is among the tokens: the chain named before the request stays the active one
 		// 4: the same parser has already parsed the full path to its last command and is re-used as it is (no option of these
-		//    trees is required, so nothing of that parse may matter; a selection that parse left below the chain named now is not looked at)
+		//    trees is required, so nothing of that parse may matter: the active chain read back afterwards is the one this line names)
 		// 5: a CommandHandler is installed (it runs instead of Execute after a successful parse and changes nothing else)
 		c08Variant = c.Deviate(6)
 		withHandler := c08Variant == 5
@@ -343,10 +352,7 @@ func init() {
 				c.Fail("handler-ran-on-a-faulty-line|"+res.Fault.Type.String(), rr.CmdCalls)
 			}
 		}
-		got := b.ActiveChain()
-		if reused && len(got) > len(res.Chain) {
-			got = got[:len(res.Chain)] // what the earlier parse selected below the chain named now
-		}
+		got := b.ActiveChain() // (on a re-used parser too: the chain is what the command words of this line select, no more)
 		c.Outcome(key, errType(rr.Err), strings.Join(got, "/"))
 		if res.Fault == nil {
 			c.Hit("model-clean")
@@ -400,7 +406,7 @@ func init() {
 			}
 			return 1
 		},
-		Rule: "every command tree with <= 4 commands and depth <= 3 (all 32 parent arrays) plus the chain of depth 4, one counter flag per node; deviations from the plain tree (bounded: 1 quick / 2 thorough): PassAfterNonOption set, a string option of the parser given a command name as its separate argument, HelpFlag set with --help among the tokens (the chain named so far stays active), a command whose AddCommand failed (must not exist), a parser that has already parsed the path to its last command and is re-used as it is, a CommandHandler installed (the diagnoses stay the same and it does not run on a faulty line), aliases on <= 2 nodes, " +
+		Rule: "every command tree with <= 4 commands and depth <= 3 (all 32 parent arrays) plus the chain of depth 4, one counter flag per node; deviations from the plain tree (bounded: 1 quick / 2 thorough): PassAfterNonOption set, a string option of the parser given a command name as its separate argument, HelpFlag set with --help among the tokens (the chain named so far stays active), a command whose AddCommand failed (must not exist), a parser that has already parsed the path to its last command and is re-used as it is (subcommands optional at every level, so that a line may end above the earlier selection), a CommandHandler installed (the diagnoses stay the same and it does not run on a faulty line), aliases on <= 2 nodes, " +
 			"subcommands-optional on any subset of inner nodes incl. the parser, one node's flag letter clashing with its parent's or grandparent's, a deeper command reusing a top-level command's name, any subset of commands hidden; " +
 			"x {struct tags, API, API with executable commands, API where the parser's flag sits in a group that is added after the commands and after a parse that selected each of them} x every sequence of <= 3 tokens (thorough: 4 tokens on the trees without deviation, all four build modes) over all names, aliases, every node's flag, one long flag and an unknown word, plus beyond that bound [unit, full path to any node, unit]; oracle = CLM active chain, scoping (which counter was incremented), " +
 			"remaining arguments and ErrCommandRequired / ErrUnknownCommand",
